@@ -6,6 +6,8 @@ import os
 
 HERE = os.path.dirname(os.path.dirname(os.path.abspath(__file__)))
 
+CH_NOTE = "Trusted: CrossHair 0.0.110 + z3 ('Confirmed over all paths' only; 'Not confirmed' / 'Unable to meet precondition' are inconclusive); the recording / contract stubs listed in the evidence; bounds in the preconditions; counterexamples are re-run concretely in a fresh process before being reported."
+
 KINDL_NOTE = (
     "Trusted: z3 5.1; the shim's stubs (pyfftw = mathematical DFT, numba preserves Python "
     "semantics, logging dropped); real arithmetic with the production doubles as coefficients "
@@ -84,6 +86,33 @@ CLAIMS = {
         "taint (value passed through single-precision storage), shapes and coordinates. Bit-identity, cross-thread 1e-12, FFTW/numba internals and "
         "the magnitude of single-precision rounding are OUTSIDE the claim (FFI / OS threads / IEEE rounding).",
         ref="7/C12", note=KINDL_NOTE + " pyfftw is modelled as thread-independent; numba as semantics-preserving for both parallel flags."),
+    "C13": dict(engine="crosshair",
+        technique="CrossHair symbolic execution (z3 per path) of interface.run_bldfm_single and the config parser with recording stubs at the numeric leaves",
+        text="Bounded symbolic check: for all option values (tokens), all three forcing patterns (ustar / z0 / both: z0 takes precedence), three-entry met lists with "
+        "symbolic entries and step index, explicit / full / default levels, user-supplied flux or not, cache or not, the four numeric leaves are called with exactly "
+        "what the documented pipeline prescribes and the result carries that step's timestamp/params and the tower's name/coordinates; a YAML file and the equal "
+        "dictionary parse to equal configurations with the documented defaults (presence of every optional key symbolic).",
+        ref="7/C13", note=CH_NOTE),
+    "C14": dict(engine="crosshair",
+        technique="CrossHair symbolic execution (z3 per path) of the serial and parallel drivers over a contract model of the process pool",
+        text="Bounded symbolic check: towers and steps 1..3 (4 thorough), all strategies incl. an invalid one, workers 1..5 or from the configuration, environment "
+        "schedules (rotation/reversal of execution and completion order), parent thread setting 1..4, cache and footprint flags: the result is "
+        "{tower: [single(tower, i)]} keyed in configuration order, equals the serial driver, leaves the parent's thread/FFT state untouched; one cache per series exactly when caching applies.",
+        ref="7/C14", note=CH_NOTE + " Real process pools, pickling and shared cache directories under concurrency are outside the claim."),
+    "C15": dict(
+        technique="identity-tagged execution of the real solver + real _compute_key over a token-recording hashlib stub, z3 queries over request pairs; CrossHair over put/get on a file-system model",
+        text="(a) for every ordered pair of request skeletons (shape x levels x modes x precision x analytic x default/explicit halo) z3 decides that no assignment of "
+        "the 26 value slots makes a stored entry answer a different request, and that an identical repeat always hits (what is hashed at lookup and at store is "
+        "recorded from one real run per skeleton; every parameter of the real signature must be classified). (b) for every crash step of put(), failure kind of "
+        "np.load and prior state of the entry, get() after restart returns None or a complete value and never raises.",
+        ref="7/C15", note="Trusted: z3, CrossHair; SHA-256 collision-free; token-sequence equality <=> key equality (fixed array lengths); np.load / os.replace contracts as listed. "
+        "Sat answers are replayed with a real on-disk cache (stale result / no hit) and real truncated files."),
+    "C16": dict(engine="crosshair",
+        technique="CrossHair symbolic execution (z3 per path) of MetConfig / BLDFMConfig / timeseries driver / CLI loop",
+        text="Bounded symbolic check: all 16 list/scalar patterns with symbolic lists (length 1..3 quick / 1..4 thorough, symbolic entries), ustar/z0 presence, "
+        "timestamps absent or of symbolic length: building the configuration rejects exactly the mismatching or unforced series, otherwise the step count is the "
+        "common length (or one); step i takes the i-th entries / scalars / i-th timestamp or i; the drivers call the single run for 0..n-1 in order.",
+        ref="7/C16", note=CH_NOTE),
 }
 
 PENDING = "check not built yet in this round (work in progress; see DESIGN.md section 7 for the plan)"
